@@ -636,6 +636,7 @@ def generated_cases():
 
 
 G.EXTRAS[0] = False  # undeclared extra fields have no type, so no merge rule applies to them
+G.ONE_MODEL_PER_UNION[0] = True  # parsed partials of Union[ModelA, ModelB] always become ModelA's partial (DESIGN 9.3)
 
 
 def check_versionless_nested(rec):
